@@ -1,7 +1,7 @@
 // C01 driver: the 8 implemented inclusion selections of the explicit tree encoding, following the protocol
 // of cli/operations.hh (sanitize; with simulation: UnionDisjointStates, ComputeSimulation(n), SetSimulation).
 // case:   incl <T A> <T B>
-// output: V v0..v7 R r0 r2 r4 r5 S <T sanA> <T sanB> <n>      v = 0 | 1 | E<class>;  R = the selections without simulation called on the
+// output: V v0..v7 R r0 r2 r4 r5 Q q1 q3 q6 q7 S <T sanA> <T sanB> <n>      v = 0 | 1 | E<class>;  R = the selections without simulation called on the
 //         operands as the caller has them (no preparation by the caller). Operands with the same rule list are built as two copies of one
 //         automaton (shared transition table) with their own final states.
 //   order: up-nosim up-sim down-nonrec-nosim down-nonrec-sim down-rec-nosim down-rec-opt-nosim down-rec-sim down-rec-opt-sim
@@ -40,6 +40,32 @@ static std::string one(const Aut& a0, const Aut& b0, bool down, bool rec, bool o
 	catch (...) { return "Enonstd"; }
 }
 
+// the DOWNWARD selections with simulation on operands that are only renumbered disjointly (ReindexStates), NOT trimmed: useless and rule-less states
+// reach the checkers. The verdicts are reported (drift); what matters is that nothing is read out of bounds (C20 runs this driver under the sanitizers).
+static std::string oneUntrimmed(const Aut& a0, const Aut& b0, bool down, bool rec, bool opt) {
+	try {
+		VATA::AutBase::StateType cnt = 0;
+		VATA::AutBase::StateToStateMap m1, m2;
+		VATA::AutBase::StateToStateTranslWeak t1(m1, [&cnt](const VATA::AutBase::StateType&) { return cnt++; });
+		Aut smaller = a0.ReindexStates(t1);
+		VATA::AutBase::StateToStateTranslWeak t2(m2, [&cnt](const VATA::AutBase::StateType&) { return cnt++; });
+		Aut bigger = b0.ReindexStates(t2);
+		IP ip; ip.SetAlgorithm(IP::e_algorithm::antichains);
+		ip.SetDirection(down ? IP::e_direction::downward : IP::e_direction::upward);
+		ip.SetUseRecursion(rec); ip.SetUseDownwardCacheImpl(opt); ip.SetUseSimulation(true);
+		Aut unionAut = Aut::UnionDisjointStates(smaller, bigger);
+		VATA::SimParam sp;
+		sp.SetRelation(down ? VATA::SimParam::e_sim_relation::TA_DOWNWARD : VATA::SimParam::e_sim_relation::TA_UPWARD);
+		sp.SetNumStates(cnt);
+		VATA::AutBase::StateDiscontBinaryRelation rel = unionAut.ComputeSimulation(sp);
+		ip.SetSimulation(&rel);
+		return Aut::CheckInclusion(smaller, bigger, ip) ? "1" : "0";
+	}
+	catch (const VATA::NotImplementedException&) { return "ENotImplemented"; }
+	catch (const std::exception&) { return "Estd"; }
+	catch (...) { return "Enonstd"; }
+}
+
 static int LIMIT_MS = 2000;     // per-case limit; a selection that exceeds it is inconclusive ("T"), never a violation (speed is not a property)
 
 int main() {
@@ -58,9 +84,10 @@ int main() {
 			} else { A = mkAut(a); B = mkAut(b); }
 			static const bool DOWN[8] = {0,0,1,1,1,1,1,1}, REC[8] = {0,0,0,0,1,1,1,1}, OPT[8] = {0,0,0,0,0,1,0,1}, SIM[8] = {0,1,0,1,0,0,1,1};
 			std::ostringstream os; os << "V";
-			static const int NOSIM[4] = {0, 2, 4, 5};
+			static const int NOSIM[4] = {0, 2, 4, 5}, WSIM[4] = {1, 3, 6, 7};
 			std::string all = forked([&]() { std::ostringstream o; for (int s = 0; s < 8; ++s) o << ' ' << one(A, B, DOWN[s], REC[s], OPT[s], SIM[s]);
-				o << " R"; for (int k = 0; k < 4; ++k) { int s = NOSIM[k]; o << ' ' << one(A, B, DOWN[s], REC[s], OPT[s], false, true); } return o.str(); }, LIMIT_MS);
+				o << " R"; for (int k = 0; k < 4; ++k) { int s = NOSIM[k]; o << ' ' << one(A, B, DOWN[s], REC[s], OPT[s], false, true); }
+				o << " Q -"; for (int k = 1; k < 4; ++k) { int s = WSIM[k]; o << ' ' << oneUntrimmed(A, B, DOWN[s], REC[s], OPT[s]); } return o.str(); }, LIMIT_MS);
 			if (all == "@TIMEOUT" || all == "@CRASH" || all == "@EXC") {     // find out which selection it was
 				for (int s = 0; s < 8; ++s) {
 					std::string r = forked([&]() { return one(A, B, DOWN[s], REC[s], OPT[s], SIM[s]); }, LIMIT_MS);
@@ -70,6 +97,12 @@ int main() {
 				for (int k = 0; k < 4; ++k) {
 					int s = NOSIM[k];
 					std::string r = forked([&]() { return one(A, B, DOWN[s], REC[s], OPT[s], false, true); }, LIMIT_MS);
+					os << ' ' << (r == "@TIMEOUT" ? "T" : r == "@CRASH" ? "Ecrash" : r == "@EXC" ? "Enonstd" : r);
+				}
+				os << " Q -";
+				for (int k = 1; k < 4; ++k) {       // downward selections only: the upward simulation is defined for trimmed automata only
+					int s = WSIM[k];
+					std::string r = forked([&]() { return oneUntrimmed(A, B, DOWN[s], REC[s], OPT[s]); }, LIMIT_MS);
 					os << ' ' << (r == "@TIMEOUT" ? "T" : r == "@CRASH" ? "Ecrash" : r == "@EXC" ? "Enonstd" : r);
 				}
 			} else os << all;
